@@ -771,3 +771,41 @@ Proof. vm_compute. reflexivity. Qed.
 (* the translator recognised the exact text of new_id_PNCList and del_from_PNCList that Files.new_id / del_id mirror *)
 Lemma table_code_shape : NEW_ID_SHAPE_OK = true /\ DEL_ID_SHAPE_OK = true.
 Proof. split; reflexivity. Qed.
+
+(* ================= the allocator always finds a slot while the table is not full ================= *)
+(* what the property needs of new_id_PNCList (it does NOT need the slot to be the first free one): *)
+Definition allocator_ok (alloc : tbl -> fobj -> tbl * Z * Z) : Prop :=
+  forall (h : list ev) (t : tbl) (p : fobj),
+    run check_id (Some tbl0) h = Some t ->
+    numfiles t < NC_MAX_NFILES ->
+    exists t' id, alloc t p = (t', NC_NOERR, id) /\ (0 <= id < NC_MAX_NFILES) /\ (occupied t id = false) /\
+                  (nth (Z.to_nat id) (slots t') None = Some p) /\ (numfiles t' = numfiles t + 1).
+
+Theorem new_id_finds_free_slot : allocator_ok new_id.
+Proof.
+  intros h t p H Hn. pose proof (run_inv _ check_id_honest h _ _ Inv0 H) as I.
+  destruct (new_id t p) as [[t' err] id] eqn:N.
+  destruct (new_id_spec _ _ _ _ _ I N) as [(Q & _) | (Q & -> & i & F & -> & R & ->)]; [lia|].
+  destruct (first_free_some _ _ F) as (Hi & Hnone & _).
+  exists (mkT (set_nth i (Some p) (slots t)) (numfiles t + 1) (nextuid t) (heap t)), (Z.of_nat i).
+  split; [reflexivity|]. split; [exact R|]. split.
+  - destruct (occupied t (Z.of_nat i)) eqn:O; [|reflexivity]. rewrite occupied_iff in O. destruct O as [_ X].
+    rewrite Nat2Z.id in X. now elim X.
+  - split; [|reflexivity]. cbn [slots]. rewrite Nat2Z.id. now apply nth_set_nth_eq.
+Qed.
+
+(* the scan that starts at pnc_numfiles: fill the table, close id 0, allocate -> NC_NOERR with id -1, nothing entered *)
+Theorem new_id_from_numfiles_refuted : ~ allocator_ok new_id_from_numfiles.
+Proof.
+  intro H.
+  remember (run check_id (Some tbl0) (repeat (ECreate OOk) MAXF ++ [EClose 0])) as r eqn:Er.
+  assert (G : match r with
+              | Some t => (numfiles t <? NC_MAX_NFILES) && (snd (new_id_from_numfiles t (mkF 0 0 0)) =? -1)
+              | None => false
+              end = true).
+  { subst r. vm_compute. reflexivity. }
+  destruct r as [t|]; [|discriminate G].
+  apply andb_prop in G. destruct G as [G1 G2]. apply Z.ltb_lt in G1. apply Z.eqb_eq in G2.
+  destruct (H _ t (mkF 0 0 0) (eq_sym Er) G1) as (t' & id & E & R & _).
+  rewrite E in G2. cbn [snd] in G2. lia.
+Qed.
